@@ -54,12 +54,13 @@ type Source interface {
 }
 
 type SimConn struct {
-	disc    Discipline
-	buf     []byte // backing array
-	r, w    int    // unread region is buf[r:w]
-	scratch []byte
-	src     Source
-	pendErr error // sticky error reported once the buffer is drained
+	OnOverPeek func(n, buffered int) // see SetOnOverPeek
+	disc       Discipline
+	buf        []byte // backing array
+	r, w       int    // unread region is buf[r:w]
+	scratch    []byte
+	src        Source
+	pendErr    error // sticky error reported once the buffer is drained
 	// ShortRead, if set, is asked how many of the avail bytes a Read returns.
 	ShortRead func(avail, want int) int
 	// DataErr makes a Read that drains the buffer report the pending error together with the data
@@ -171,6 +172,10 @@ func (c *SimConn) Release() error {
 // Unread is for the harness only: the buffered octets, without any of the effects a Peek has.
 func (c *SimConn) Unread() []byte { return c.buf[c.r:c.w] }
 
+// OnOverPeek, when set, is told about every Peek that asks for more than is buffered. On a reader that fetches what is
+// missing from the connection (bufio.Reader, netpoll) such a Peek waits for the peer.
+func (c *SimConn) SetOnOverPeek(f func(n, buffered int)) { c.OnOverPeek = f }
+
 func (c *SimConn) Peek(n int) ([]byte, error) {
 	c.Peeks++
 	c.invalidate()
@@ -180,6 +185,9 @@ func (c *SimConn) Peek(n int) ([]byte, error) {
 	avail := c.w - c.r
 	var err error
 	if n > avail {
+		if c.OnOverPeek != nil {
+			c.OnOverPeek(n, avail)
+		}
 		n = avail
 		err = ErrShort
 		if c.pendErr != nil {
